@@ -330,7 +330,7 @@ pub fn run(rep: &Report) {
             rep.fail(f);
         }
     }
-    let n = rep.tier.scale(120_000, 30);
+    let n = rep.tier.scale(360_000, 10);
     run_family(rep, "near_equal_pairs", n, || (value(vopts()), any::<u16>(), any::<u8>(), any::<u64>(), any::<u64>(), any::<bool>()), |(v, idx, kind, sa, sb, twice), l| {
         let mut w = mutate(v, *idx, *kind);
         if *twice {
@@ -351,7 +351,7 @@ pub fn run(rep: &Report) {
         // also every permutation position for the scalar-heavy case
         check_triple(&b, v, &c, splitmix(*s), l)
     });
-    run_family(rep, "arrays", rep.tier.scale(80_000, 30), || (prop::collection::vec((value(ValOpts { depth: 2, max_len: 3, ..vopts() }), prop::collection::vec((any::<u16>(), any::<u8>()), 0..3)), 0..12), any::<u64>(), any::<bool>()), |(base, salt, homogeneous), l| {
+    run_family(rep, "arrays", rep.tier.scale(240_000, 10), || (prop::collection::vec((value(ValOpts { depth: 2, max_len: 3, ..vopts() }), prop::collection::vec((any::<u16>(), any::<u8>()), 0..3)), 0..12), any::<u64>(), any::<bool>()), |(base, salt, homogeneous), l| {
         // each base value contributes itself and its near-equal variants
         let mut xs: Vec<MVal> = vec![];
         for (v, muts) in base {
@@ -373,7 +373,7 @@ pub fn run(rep: &Report) {
         }
         Ok(())
     });
-    run_family(rep, "lookups", rep.tier.scale(200_000, 30), || (prop::collection::vec((key_pool(), scalar(ValOpts { undefined: false, bytes: false, ..vopts() })), 0..15), key_pool(), any::<u16>(), any::<bool>(), any::<u64>(), any::<u64>()), |(entries, probe, pick, hit, sm, sk), l| {
+    run_family(rep, "lookups", rep.tier.scale(600_000, 10), || (prop::collection::vec((key_pool(), scalar(ValOpts { undefined: false, bytes: false, ..vopts() })), 0..15), key_pool(), any::<u16>(), any::<bool>(), any::<u64>(), any::<u64>()), |(entries, probe, pick, hit, sm, sk), l| {
         let m: std::collections::BTreeMap<MKey, MVal> = entries.iter().cloned().collect();
         let k = if *hit && !m.is_empty() { m.keys().nth((*pick as usize * m.len()) >> 16).unwrap().clone() } else { probe.clone() };
         check_lookup(&m, &k, *sm, *sk, l)
